@@ -11,7 +11,7 @@
 enum { K_KEY, K_VALUE, K_CONT, K_SECTION, K_CBEFORE, K_CAFTER, K_CBLOCK2, K_CBLOCK3, K_DROPNAME, K_PATH, K_OPTION, K_TOOLARG, K_MANY, K_N };
 static const char *KN[K_N] = { "key", "value", "continuation line", "section name", "comment before", "comment after", "second line of a comment block", "all three lines of a comment block", "drop-in file name",
                                "path length", "option string", "econftool --delimiters", "16 entries, each with value, comment before and comment after of this length" };
-static const size_t LEN[] = { 1, 8190, 8191, 8192, 8193, 8194, 16384, 65536, 1048576 };
+static const size_t LEN[] = { 1, 8190, 8191, 8192, 8193, 8194, 16384, 65536, 262144, 1048576 };
 static const size_t PLEN[] = { 4000, 4090, 4094, 4095, 4096, 4097, 4098, 4200 };
 static const size_t NLEN[] = { 100, 254, 255 };
 static int with_1m;
@@ -24,7 +24,7 @@ static void gen(void)
   else if (kind == K_PATH) li = mc_choose(8);
   else if (kind == K_MANY) li = 7;                    /* 64 KiB per field, 3 MiB in the file */
   else if (kind == K_TOOLARG) li = mc_choose(8);      /* one argv string is limited to 128 KiB by the kernel */
-  else li = mc_choose(with_1m ? 9 : 8);
+  else li = mc_choose(with_1m ? 10 : 9);
 }
 
 static char *pattern(size_t n, unsigned seed)
@@ -70,6 +70,13 @@ static void check_obj(const char *stage, econf_file *kf, const char *g, const ch
     else { char *first = strndup(val, (size_t)(nl - val)); expect_str(what, first, v0, sig); free(first); const char *p = nl + 1; while (*p == ' ' || *p == '\t') p++; expect_str(what, p, v1, sig); }
   }
   free(val);
+  /* every typed and defaulted getter on the entry (whatever they answer: they must cope with the length) */
+  { int32_t i32; int64_t i64; uint32_t u32; uint64_t u64; float f; double d; bool b; char *sd = NULL;
+    (void)econf_getIntValue(kf, g, k, &i32); (void)econf_getInt64Value(kf, g, k, &i64); (void)econf_getUIntValue(kf, g, k, &u32); (void)econf_getUInt64Value(kf, g, k, &u64);
+    (void)econf_getFloatValue(kf, g, k, &f); (void)econf_getDoubleValue(kf, g, k, &d); (void)econf_getBoolValue(kf, g, k, &b);
+    (void)econf_getIntValueDef(kf, g, k, &i32, 1); (void)econf_getUInt64ValueDef(kf, g, k, &u64, 1); (void)econf_getDoubleValueDef(kf, g, k, &d, 1.0); (void)econf_getBoolValueDef(kf, g, k, &b, true);
+    if (econf_getStringValueDef(kf, g, k, &sd, (char *)"d") == ECONF_SUCCESS && !v1) expect_str("defaulted string getter", sd ? sd : "", v0, sig);
+    free(sd); mc_st->libcalls += 12; }
   econf_ext_value *ev = NULL;
   rc = econf_getExtValue(kf, g, k, &ev);
   snprintf(what, sizeof what, "%s: econf_getExtValue", stage);
@@ -112,6 +119,12 @@ static void text_field_case(const char *sig)
   check_obj("read", kf, g, k, v0, v1, cb, ca, sig);
   /* merge in both roles with a small partner that shares nothing */
   econf_newKeyFile(&partner, '=', '#'); econf_setStringValue(partner, "P", "p", "1");
+  /* the partner also has a key / section whose long name differs from ours in the LAST byte only: both must survive the merge */
+  char *twin = NULL;
+  if ((kind == K_KEY || kind == K_SECTION) && L > 1) {
+    twin = strdup(big); twin[L - 1] = twin[L - 1] == 'z' ? 'y' : 'z';
+    if (kind == K_KEY) econf_setStringValue(partner, NULL, twin, "twin"); else econf_setStringValue(partner, twin, "k", "twin");
+  }
   for (int role = 0; role < 2 && !mc_case_failed; role++) {
     rc = role ? econf_mergeFiles(&m, partner, kf) : econf_mergeFiles(&m, kf, partner);
     if (rc || !m) { mc_fail(sig, "econf_mergeFiles (%s) failed: %d; %s", role ? "as override" : "as base", (int)rc, sig); break; }
@@ -120,6 +133,12 @@ static void text_field_case(const char *sig)
     if (rc) mc_fail(sig, "merge result (%s): key lost, rc=%d; %s", role ? "as override" : "as base", (int)rc, sig);
     else if (!v1) expect_str("merge result: econf_getStringValue", val ? val : "", v0, sig);
     free(val);
+    if (twin) {
+      char *tv = NULL;
+      econf_err tr = kind == K_KEY ? econf_getStringValue(m, NULL, twin, &tv) : econf_getStringValue(m, twin, "k", &tv);
+      if (tr || !tv || strcmp(tv, "twin")) mc_fail(sig, "merge result (%s): the partner's %s, which differs from ours in the last of %zu bytes only, has value %s (rc=%d), expected \"twin\"; %s", role ? "as override" : "as base", kind == K_KEY ? "key" : "section", L, tv ? tv : "<none>", (int)tr, sig);
+      free(tv);
+    }
     if (!econf_getExtValue(m, g, k, &ev) && ev) {
       if (cb) expect_str("merge result: comment_before_key", ev->comment_before_key, cb, sig);
       if (ca) expect_str("merge result: comment_after_value", ev->comment_after_value, ca, sig);
@@ -161,7 +180,7 @@ out:
   if (back) econf_freeFile(back);
   if (lay) econf_freeFile(lay);
   unlink(path);
-  sb_free(&f); free(big); free(cblock);
+  sb_free(&f); free(big); free(cblock); free(twin);
 }
 
 static void dropname_case(const char *sig)
@@ -294,7 +313,7 @@ static void option_case(const char *sig)
 }
 
 /* many long fields in one object: whatever the library needs per field must be given back before the next one (the calls run
- * on a thread with a 512 KiB stack, see exec) */
+ * on a thread with a 160 KiB stack, see exec) */
 #define MANY 16
 static void many_case(const char *sig)
 {
@@ -392,10 +411,10 @@ static void exec(void)
   else if (kind == K_OPTION) option_case(sig);   /* default stack: the items are directory names far beyond the OS limits, for which the
                                                   * claim is only "an error code, no overrun"; the library builds candidate names with alloca */
   else {
-    /* the library calls run on a thread with a 512 KiB stack: stack use that grows with the length of a field (alloca, variable
+    /* the library calls run on a thread with a 160 KiB stack: stack use that grows with the length of a field (alloca, variable
      * length arrays) is a length limit too and shows as a stack overflow here instead of only beyond the 8 MiB default */
     pthread_t th; pthread_attr_t at;
-    pthread_attr_init(&at); pthread_attr_setstacksize(&at, 512 * 1024);
+    pthread_attr_init(&at); pthread_attr_setstacksize(&at, (size_t)160 * 1024);
     if (pthread_create(&th, &at, exec_on_small_stack, NULL) != 0) mc_die("pthread_create");
     pthread_join(th, NULL); pthread_attr_destroy(&at);
   }
@@ -411,7 +430,7 @@ int main(int argc, char **argv)
   with_1m = (int)mc_opt.param[0];
   mc_split = 2;
   if (mc_opt.case_id) return mc_replay(gen, exec, mc_opt.case_id);
-  if (mc_explore(gen, exec, 0, 0)) mc_st->bound_completed = with_1m ? 1048576 : 65536;
+  if (mc_explore(gen, exec, 0, 0)) mc_st->bound_completed = with_1m ? 1048576 : 262144;
   mc_finish();
   return 0;
 }
